@@ -282,12 +282,14 @@ func (f *formatter) StmtClass(n *ast.StmtClass) {
 	f.addFreeFloating(token.T_WHITESPACE, []byte(" "))
 	if n.Extends != nil {
 		n.ExtendsTkn = f.newToken(token.T_EXTENDS, []byte("extends"))
+		f.addFreeFloating(token.T_WHITESPACE, []byte(" "))
 		n.Extends.Accept(f)
 		f.addFreeFloating(token.T_WHITESPACE, []byte(" "))
 	}
 
 	if n.Implements != nil {
 		n.ImplementsTkn = f.newToken(token.T_IMPLEMENTS, []byte("implements"))
+		f.addFreeFloating(token.T_WHITESPACE, []byte(" "))
 		n.ImplementsSeparatorTkns = f.formatList(n.Implements, ',')
 		f.addFreeFloating(token.T_WHITESPACE, []byte(" "))
 	}
@@ -666,6 +668,7 @@ func (f *formatter) StmtInterface(n *ast.StmtInterface) {
 
 	if n.Extends != nil {
 		n.ExtendsTkn = f.newToken(token.T_EXTENDS, []byte("extends"))
+		f.addFreeFloating(token.T_WHITESPACE, []byte(" "))
 		n.ExtendsSeparatorTkns = f.formatList(n.Extends, ',')
 		f.addFreeFloating(token.T_WHITESPACE, []byte(" "))
 	}
